@@ -280,6 +280,11 @@ func (s *Session) clientOp(r *rpcState, a *actor, st Step) {
 		}
 		r.shape = st.Shape
 		s.rpcContext(r, st)
+		if has(st.Opts, "nomd") && !has(st.Opts, "creds") {
+			s.mu.Lock()
+			s.untagged = append(s.untagged, r.n)
+			s.mu.Unlock()
+		}
 		opts := s.callOpts(r, st.Opts)
 		ch := s.channel()
 		if ch == nil {
@@ -339,6 +344,9 @@ func (s *Session) clientOp(r *rpcState, a *actor, st Step) {
 			return
 		}
 		err := r.cs.SendMsg(Msg(r.n, "c", idx, st.N))
+		if err != nil {
+			s.markSendFailed(r.n, "c")
+		}
 		s.opRet(a, st, errFields(tr.E{"idx": idx}, err))
 	case "half":
 		s.opStart(a, st, nil)
